@@ -530,7 +530,7 @@ CHECKS = {
         "level": "exploration",
         "rule": ("one run = one seeded plan on a sliding-window Bloom filter: configurations as for C35, windows of 1 s .. 1 h including odd numbers of milli- and "
                  "microseconds, a constant server clock offset, 2-5 tasks issuing Add/AddMulti/Exists/ExistsMulti (Reset/Delete in 20% of the plans) on 1-2 clients; "
-                 "the scheduler advances the fake clock in steps of window/400 .. window/2 - 100 us between and inside calls, so rotations (an expiring lock key "
+                 "the scheduler advances the fake clock in steps of window/100 .. window/2 - 1.5 ms (and 0.1 / 1 ms) between and inside calls, half of the plans have a watcher task that adds one item and keeps asking about it, so rotations (an expiring lock key "
                  "in the model) race with adds and queries; SCRIPT FLUSH ghost, faults and deadlines as for C35. oracle: an Exists/ExistsMulti that was started "
                  "after an Add/AddMulti of the item had returned nil and that returned before start(add) + window/2 - 1 ms of fake time reports the item present, per key "
                  "in order, absent a Reset/Delete that can have taken effect in between (sound for any server-side instants: the add took effect no earlier than "
